@@ -1,3 +1,4 @@
+import RR.Gen.WaitsStatus
 import RR.Proof.Wait
 import RR.Gen.Waits
 
